@@ -5,7 +5,7 @@ object-store call sites (CloudServer::add_version / get_child_version / add_snap
 ring's PBKDF2 and ChaCha20-Poly1305 are replaced by the ideal model of mirsym.models.crypto."""
 import z3
 
-from mirsym.explore import PathAbort, Panic
+from mirsym.values import Adt, clone_val, PyVec, PySlice, Some, NONE, mkref, SegStr, Bytes, deref
 from mirsym.values import Adt, clone_val, PyVec, PySlice, Some, NONE, mkref, SegStr, Bytes
 from mirsym.models.core import val_eq, z_and, z_all, z_any, z_not, z_or
 from mirsym.models.crypto import CtByte, TagByte, CtBlob, KdfByte, UuidByte, crypto_log
@@ -240,6 +240,126 @@ class CallSiteHarness:
         return out
 
 
+
+class HttpCallSiteHarness:
+    """HTTP call sites (src/server/sync/mod.rs): what is sent is sealed under a key salted with the client id, versions are
+    bound to their parent version id and snapshots to their own version id; what is received is opened only under the
+    binding the protocol prescribes, so a body sealed for another version id is rejected however the server labels it"""
+
+    def __init__(self, name):
+        self.I = get_interp(variant='full')
+        self.name = name
+
+    def run_path(self, ctx):
+        from .common import World
+        from .httpworld import HttpWorld, dashed, CT_SEGMENT, CT_SNAPSHOT
+        from mirsym.models import http
+        c, I = ctx, self.I
+        World(I, ctx)
+        cid = c.fresh_int('client_id', 1, 2 ** 128 - 1)
+        w = HttpWorld(I, ctx, client_id=cid)
+        log = I.env['crypto_log']
+        srv = w.new_client()
+        srvm = w.server
+        P = c.fresh_int('parent', 0, 2 ** 128 - 1)
+        c.assume(z3.And(P != 7001, P != 7002, P != 7003))
+        pl1 = sym_bytes(c, 1 + c.choose(2, 'len'), 'pt')
+        pl2 = sym_bytes(c, 1, 'pt2')
+        spl = sym_bytes(c, 1, 'snap')
+
+        def wit(m):
+            return {'backend': 'http', 'client_id': show(cid, m), 'parent': show(P, m), 'requests': [(q[0], q[1], show(q[2], m)) for q in srvm.requests]}
+        # --- key derivation: salt = the 16 bytes of the client id
+        if len(log['kdf']) != 1:
+            c.prove(False, 'the HTTP client derived no key or more than one', wit, {'class': 'http-kdf'})
+            return None
+        salt = log['kdf'][0].salt
+        salt = salt.items if hasattr(salt, 'items') else salt
+        salt_ok = len(salt) == 16 and all(isinstance(x, UuidByte) and x.i == k for k, x in enumerate(salt))
+        if not (salt_ok and c.prove(z_all(x.u == cid for x in salt), 'the key of the HTTP client is not salted with the client id', wit, {'class': 'http-salt'})):
+            if not salt_ok:
+                c.prove(False, 'the key of the HTTP client is not salted with the 16 bytes of the client id', wit, {'class': 'http-salt'})
+            return None
+        # --- two versions and a snapshot are sent
+        r = w.run(w.f_add_version(srv, P, clone_val(pl1)))
+        if r.variant != 0 or r.fields[0].fields[0].variant != 0:
+            raise Panic('add_version failed: ' + repr(r)[:200])
+        X = r.fields[0].fields[0].fields[0]
+        r = w.run(w.f_add_version(srv, X, clone_val(pl2)))
+        Y = r.fields[0].fields[0].fields[0]
+        r = w.run(w.f_add_snapshot(srv, X, clone_val(spl)))
+        if r.variant != 0:
+            raise Panic('add_snapshot failed: ' + repr(r)[:200])
+        plain = [id(x) for x in pl1.items + pl2.items + spl.items]
+        posts = [q for q in srvm.requests if q[0] == 'POST']
+        expect_bind = [P, X, X]
+        if len(posts) != 3 or srvm.problems:
+            c.prove(False, 'requests do not follow docs/src/http.md', wit, {'class': 'request-format', 'problem': repr(srvm.problems[:1])})
+            return None
+        for q, own in zip(posts, expect_bind):
+            body = deref(q[4])
+            val = body.items if hasattr(body, 'items') else None
+            leaked = val is None or any(id(x) in plain for x in val)
+            sealed_ok = val is not None and len(val) >= 30 and val[0] == 1 and isinstance(val[-1], TagByte)
+            if not c.prove(sealed_ok and not leaked, 'a request body left the host without being sealed', wit, {'class': 'http-plaintext', 'endpoint': q[1]}):
+                return None
+            for k, hv in q[3]:
+                if not isinstance(hv, (str, SegStr)):
+                    c.prove(False, 'a request header carries non-text data', wit, {'class': 'http-plaintext', 'header': repr(k)})
+                    return None
+            aad = val[-1].rec.aad.items
+            bound = len(aad) == 17 and aad[0] == 1 and all(isinstance(x, UuidByte) for x in aad[1:])
+            if not (bound and c.prove(z_all(x.u == own for x in aad[1:]), 'a request body is not bound to the documented version id (versions: the parent version id; snapshots: their own version id)', wit,
+                                      {'class': 'http-binding', 'endpoint': q[1]})):
+                if not bound:
+                    c.prove(False, 'a request body has a malformed AAD', wit, {'class': 'http-binding', 'endpoint': q[1]})
+                return None
+        c.cover('http: requests sealed and bound')
+        # --- honest read back
+        r = w.run(w.f_get_child_version(srv, P))
+        ok = r.variant == 0 and r.fields[0].variant == 1 and val_eq(r.fields[0].fields[2], pl1)
+        if r.variant != 0 or r.fields[0].variant != 1 or not c.prove(ok, 'a version sealed by this client does not open to the original bytes', wit, {'class': 'http-roundtrip'}):
+            if r.variant != 0 or r.fields[0].variant != 1:
+                c.prove(False, 'a version sealed by this client was not returned', wit, {'class': 'http-roundtrip', 'got': repr(r)[:160]})
+            return None
+        r = w.run(w.f_get_snapshot(srv))
+        ok = r.variant == 0 and r.fields[0].variant == 1 and val_eq(r.fields[0].fields[0].fields[1], spl)
+        if not (r.variant == 0 and r.fields[0].variant == 1) or not c.prove(ok, 'a snapshot sealed by this client does not open to the original bytes', wit, {'class': 'http-roundtrip'}):
+            if not (r.variant == 0 and r.fields[0].variant == 1):
+                c.prove(False, 'a snapshot sealed by this client was not returned', wit, {'class': 'http-roundtrip', 'got': repr(r)[:160]})
+            return None
+        c.cover('http: round trip')
+        # --- a server that re-labels what it stores
+        body_x, body_y, body_s = srvm.chain[0][2], srvm.chain[1][2], srvm.snapshot[1]
+        R = http.Response
+        Q = c.fresh_int('other', 0, 2 ** 128 - 1)
+        c.assume(z3.And(Q != P, Q != X, Q != Y))
+        attacks = [
+            ('version body served as the child of another parent', lambda: w.f_get_child_version(srv, Q),
+             lambda ep, resp: R(200, [('content-type', CT_SEGMENT), ('x-version-id', dashed(X)), ('x-parent-version-id', dashed(Q))], body_x, resp.url)),
+            ("grandchild's body served as the child, labelled with the child's id", lambda: w.f_get_child_version(srv, P),
+             lambda ep, resp: R(200, [('content-type', CT_SEGMENT), ('x-version-id', dashed(X)), ('x-parent-version-id', dashed(P))], body_y, resp.url)),
+            ("child's body served under a foreign version id", lambda: w.f_get_child_version(srv, X),
+             lambda ep, resp: R(200, [('content-type', CT_SEGMENT), ('x-version-id', dashed(P)), ('x-parent-version-id', dashed(X))], body_x, resp.url)),
+            ('snapshot labelled with another version id', lambda: w.f_get_snapshot(srv),
+             lambda ep, resp: R(200, [('content-type', CT_SNAPSHOT), ('x-version-id', dashed(Y))], body_s, resp.url)),
+            ('version body served as the snapshot of its own id', lambda: w.f_get_snapshot(srv),
+             lambda ep, resp: R(200, [('content-type', CT_SNAPSHOT), ('x-version-id', dashed(Y))], body_y, resp.url)),
+        ]
+        k = c.choose(len(attacks), 'attack')
+        name, call, tamper = attacks[k]
+        srvm.tamper = tamper
+        r = w.run(call())
+        srvm.tamper = None
+        if not c.prove(r.variant == 1, 're-labelled data was returned instead of rejected: ' + name, wit, {'class': 'http-relabel', 'attack': name}):
+            return None
+        c.cover('http: re-labelled data rejected: ' + name)
+        out = {'backend': 'http', 'attack': name}
+        if c.want_sample:
+            out['_encoded'] = sorted(I.encoded)
+            out['_modelled'] = sorted(I.modelled)
+        return out
+
 def _seal_problems(scn, out):
     """judge tc-replay's output for a 'seal' scenario against the documented construction (docs/src/encryption.md);
     the reference is an independent implementation written directly on ring inside the replay binary"""
@@ -295,10 +415,14 @@ def _callsite_problems(scn, out, payloads):
 
 
 def replay_scenario(v):
+    if v['witness'].get('backend') == 'http':
+        return {'kind': 'noop'}
     return v['witness']['scenario']
 
 
 def replay_judge(scn, out, v):
+    if scn.get('kind') == 'noop':
+        return True, {'note': 'HTTP call sites: judged by the engine (the replay binary has no HTTP server)'}
     if scn.get('kind') == 'seal':
         p = _seal_problems(scn, out)
     else:
@@ -316,19 +440,27 @@ def validate_samples(s, out):
 
 def required_covers(tier):
     return ['sealed layout checked', 'round trip', 'opened with identical context', 'rejected foreign context', 'tamper rejected: modify',
-            'tamper rejected: truncate', 'relabelled object rejected']
+            'tamper rejected: truncate', 'relabelled object rejected', 'http: requests sealed and bound', 'http: round trip',
+            'http: re-labelled data rejected: version body served as the child of another parent',
+            "http: re-labelled data rejected: grandchild's body served as the child, labelled with the child's id",
+            "http: re-labelled data rejected: child's body served under a foreign version id",
+            'http: re-labelled data rejected: snapshot labelled with another version id',
+            'http: re-labelled data rejected: version body served as the snapshot of its own id']
 
 
 def configs(tier):
     return [dict(name='roundtrip', factory=lambda: CryptorHarness('roundtrip', 'rt'), bounds='payload 0-2 symbolic bytes, secret 1-2 bytes, salt 16 bytes, any version id'),
             dict(name='context', factory=lambda: CryptorHarness('context', 'cx'), bounds='a second Cryptor with symbolic salt/secret and a second symbolic version id: opens iff all three are equal'),
             dict(name='tamper', factory=lambda: CryptorHarness('tamper', 'tp'), bounds='every single-position modification, every truncation, one-byte extension, other envelope version bytes'),
-            dict(name='call-sites', factory=lambda: CallSiteHarness('cs'), bounds='object-store server: one version and one snapshot stored, then a re-labelled copy')]
+            dict(name='call-sites', factory=lambda: CallSiteHarness('cs'), bounds='object-store server: one version and one snapshot stored, then a re-labelled copy'),
+            dict(name='http-call-sites', factory=lambda: HttpCallSiteHarness('hcs'), mir='full',
+                 bounds='HTTP client with a symbolic client id: two versions (payload 1-2 and 1 symbolic bytes) and one snapshot sent, read back, then one of five re-labelling answers of the server')]
 
 
 ASSUMPTIONS = [
     'ring primitives idealised: PBKDF2 = injective function of (algorithm, iterations, salt, secret); AEAD open succeeds iff ciphertext+tag are exactly those of one seal call and key, nonce, AAD are equal (any modification or truncation rejected) — the textbook contracts; the primitives themselves (assembly/C behind FFI, 600000 HMAC iterations) cannot be executed symbolically',
-    'claimed for the Rust-side construction (parameters, envelope layout, AAD, nonce freshness, round trip, rejection) and for the object-store call sites; the HTTP and git call sites are not executed',
+    'claimed for the Rust-side construction (parameters, envelope layout, AAD, nonce freshness, round trip, rejection), for the object-store call sites and for the HTTP call sites (reqwest modelled at its call boundary: a request is a record of method, url, headers and body; HTTP counterexamples are judged by the engine); the git call sites are not executed',
+    'a snapshot of version V and the history segment whose parent is V are both bound to V by the documented scheme; serving one as the other is not distinguishable by the binding and is not attempted',
     'replay: the solver model (salt, secret, version id, payload, tampering) is run on the compiled Cryptor through the hook and judged against an independent implementation of the documented construction written directly on ring in the replay binary (real PBKDF2 / ChaCha20-Poly1305); object-store call sites: every stored object must open under its own version id with that reference',
 ]
 EXPLANATION = ('salt, secret, version ids, payload and tampered bytes are z3 terms; the recorded KDF/AEAD calls are compared with the '
